@@ -38,6 +38,8 @@ def run(ctx):
     ctx.rule("R-GRD", "success requires the guard literal (graph cut on its true edges)")
     ctx.rule("R-FLOW", "operand provenance (backward slice) is the required source")
     ctx.rule("R-WHO", "construction sites of a type are exactly the confirmed ones")
+    ctx.rule("R-REG", "the per-block containment / overlap tests behind verify_issued equal the interval definition on every ordering")
+    K.check_block_predicates(ctx, f)
 
     all_entries = ENTRY_ISSUED_VERIFY + ENTRY_TA_VERIFY + ENTRY_ISSUED_VALIDATE + ENTRY_TA_VALIDATE
     issued = ENTRY_ISSUED_VERIFY + ENTRY_ISSUED_VALIDATE
